@@ -118,10 +118,29 @@ def tournament_size(repo, items):
     if fn is None:
         raise TranslationError(R_GEN, gtree, 'tournament_selection not found')
     al = _module_alias(gtree, 'opytimizer.utils.constants')
-    uses = [n for n in ast.walk(fn) if isinstance(n, ast.Attribute) and n.attr == 'TOURNAMENT_SIZE'
-            and isinstance(n.value, ast.Name) and n.value.id in al]
-    if not uses:
-        raise TranslationError(R_GEN, fn, 'tournament_selection does not read constants.TOURNAMENT_SIZE')
+
+    def reads(node):
+        return [n for n in ast.walk(node) if isinstance(n, ast.Attribute) and n.attr == 'TOURNAMENT_SIZE'
+                and isinstance(n.value, ast.Name) and n.value.id in al]
+    # the round size must be read from the constant WHEN THE FUNCTION IS CALLED: in its body.  A parameter default
+    # (or a decorator / module-level copy) is evaluated once, at import time, and is not that.
+    a = fn.args
+    if a.vararg or a.kwarg or a.kwonlyargs or a.posonlyargs or a.defaults or a.kw_defaults or fn.decorator_list \
+            or [x.arg for x in a.args] != ['fitness', 'n']:
+        raise TranslationError(R_GEN, fn, 'tournament_selection must take exactly (fitness, n), without defaults: '
+                               'the round size is constants.TOURNAMENT_SIZE read at call time')
+    in_body = [n for st in fn.body for n in reads(st)]
+    if not in_body:
+        raise TranslationError(R_GEN, fn, 'tournament_selection does not read constants.TOURNAMENT_SIZE in its body (at call time)')
+    # ... and every such read is the argument of a range(...) that sizes a round
+    ranged = [n for st in fn.body for n in ast.walk(st) if isinstance(n, ast.Call) and isinstance(n.func, ast.Name)
+              and n.func.id == 'range' and len(n.args) == 1 and not n.keywords and n.args[0] in in_body]
+    if len(ranged) != len(in_body):
+        raise TranslationError(R_GEN, fn, 'constants.TOURNAMENT_SIZE must be used as range(<constants>.TOURNAMENT_SIZE) only')
+    # module-level copies of the constant (frozen at import time) are rejected as well
+    for st in gtree.body:
+        if not isinstance(st, (ast.FunctionDef, ast.ClassDef)) and reads(st):
+            raise TranslationError(R_GEN, st, 'module-level copy of constants.TOURNAMENT_SIZE (evaluated at import time)')
     items.append({'file': R_CONST, 'line': vals[0].lineno, 'text': src_of(src, vals[0])})
     return '%d%%nat' % vals[0].value.value
 
